@@ -9,11 +9,13 @@ META = dict(
          "specification of the reply parser) upward messages, handshake outcome and downward bytes do not depend on "
          "segmentation; tunnels are transparent; for ALL kernel accept patterns kernel bytes ++ queued bytes = concatenation "
          "of the accepted frames; no model ever indexes outside a buffer, fails an assertion or spins (checked reads/writes, "
-         "g_assert = Fault).  Where the unchanged code violates a statement the file carries a vm_compute witness "
-         "(`_refuted`) and the statement is proved with exactly that trigger excluded (7 defects, all reproduced on the real "
-         "code, listed as KNOWN-FINDING).  Each model is tied to /repo's working tree on every run by differential execution "
-         "against the REAL layer code over a scripted base socket / interposed kernel write, plus an implementation-side "
-         "oracle that states the property without the model.",
+         "g_assert = Fault).  The models follow the repaired code (fix commits 509c336 4b5b4ef a4cf846 bc18d98 b519949 9934485 "
+         "fcd7bcb); all statements are unconditional except HTTP segmentation independence, which is proved for every stream of "
+         "at most 70000 bytes (the caller's buffer) and, beyond that, for every delivery in which the bytes following the proxy "
+         "reply in the read that completes it fit that buffer.  Each model is tied to /repo's working tree on every run by "
+         "differential execution against the REAL layer code over a scripted base socket / interposed kernel write, plus an "
+         "implementation-side oracle that states the property without the model (a regression of any of the seven fixes is "
+         "reported as VIOLATION with the failing input).",
     note="trusted: Coq kernel, extraction (ExtrOcamlBasic only), the hand-written models (tied by sampling, not proof), the "
          "harness (scripted base socket semantics, painting of uninitialised memory, interposed g_socket_send_message). The "
          "RFC 4571 framing inside agent.c belongs to C02 and is not part of this check.",
@@ -38,7 +40,9 @@ FINISH = dict(
          "something or a partial write happened; distinct by case text",
     assumptions=["the base socket returns min(requested, available) bytes per read and never fails (scripted socket)",
                  "callers pass one NiceInputMessage per recv_messages call (what agent.c does)",
-                 "C17_write_atomic quantifies over accept counts and EWOULDBLOCK; hard kernel errors drop queued frames (noted)"])
+                 "C17_write_atomic quantifies over accept counts and EWOULDBLOCK; hard kernel errors drop queued frames (noted)",
+                 "HTTP: what follows the proxy reply in the read that completes it fits the caller's buffer (70000 bytes here); the "
+                 "repaired code still leaves the excess in the ring for good (needs a header line > 64 KiB; reproduced, notes/C17.md)"])
 
 DRIVER = ["zutil_z.ml.in", "zutil_big.ml.in", "stream_driver.ml"]
 hx = lambda b: bytes(b).hex() if len(b) else "-"
